@@ -164,6 +164,14 @@ Fixpoint match_op (table : list (text * binop)) (s : text) : option (binop * tex
   | (t, op) :: rest => match tag t s with Some r => Some (op, r) | None => match_op rest s end
   end.
 
+(* address modifier in front of an identifier: '<' low byte, '>' high byte; w = input after trivia, s = input *)
+Definition split_modifier (w s : text) : option modifier * text :=
+  match w with
+  | 60 :: r => (Some LowByte, r)
+  | 62 :: r => (Some HighByte, r)
+  | _ => (None, s)
+  end.
+
 Section WithExpression.
   Variable p_expr : text -> option (expr * text).
 
@@ -202,11 +210,7 @@ Section WithExpression.
     end.
 
   Definition identifier_value (s : text) : option ((bool -> bool -> expr) * text) :=
-    let '(m, r) := match ws s with
-                   | 60 :: r => (Some LowByte, r)
-                   | 62 :: r => (Some HighByte, r)
-                   | _ => (None, s)
-                   end in
+    let '(m, r) := split_modifier (ws s) s in
     match identifier_path (ws r) with
     | Some (p, r') => Some (EId p m, r')
     | None => None
